@@ -556,6 +556,26 @@ def spec(call, lists, levels, val):
             return f'add_sum_pow2_m1: level 0 holds {len(lists[0])} bits'
         return None if got == sum(xs) else f'add_sum_pow2_m1: {sum(xs)} ones counted as {got}'
     if k in ('weighted', 'naive'):
+        if max([w for w, _ in call[2]] + list(levels) + [0]) > 4096:
+            # levels far above what an integer can hold as a shift: compare the sparse binary representations
+            def normal(pairs):
+                cnt = {}
+                for lev, v in pairs:
+                    if v:
+                        cnt[lev] = cnt.get(lev, 0) + 1
+                todo = sorted(cnt)
+                while todo:
+                    lev = todo.pop(0)
+                    if cnt.get(lev, 0) >= 2:
+                        cnt[lev + 1] = cnt.get(lev + 1, 0) + cnt[lev] // 2
+                        cnt[lev] %= 2
+                        if lev + 1 not in todo:
+                            todo.append(lev + 1)
+                            todo.sort()
+                return sorted(lev for lev, n_ in cnt.items() if n_)
+            exp = normal([(w, int(val[l])) for w, l in call[2]])
+            got = normal(list(zip(levels, V(lists[0]))))
+            return None if got == exp else f'{k}: weighted sum with set bits at levels {exp} returned as levels {got}'
         exp = sum(int(val[l]) << w for w, l in call[2])
         got = sum(v << lev for v, lev in zip(V(lists[0]), levels))
         return None if got == exp else f'{k}: weighted sum {exp} returned as {got}'
